@@ -47,6 +47,13 @@ var wants = []want{
 	{"pkg/serverinit/serverinit.go", "switchcases", "handlerTypeWantsAuth", "handler_types_want_auth"},
 	// true iff parsePermanodeContinueToken reads the time with strconv.ParseInt (negative = pre-1970 times parse)
 	{"pkg/search/query.go", "calls:strconv.ParseInt", "parsePermanodeContinueToken", "continue_token_signed"},
+	// which schema accessors the share handler's link check consults
+	{"pkg/server/share.go", "selcalls:ByteParts", "bytesHaveSchemaLink", "share_links_byte_parts"},
+	{"pkg/server/share.go", "selcalls:DirectoryEntries", "bytesHaveSchemaLink", "share_links_dir_entries"},
+	{"pkg/server/share.go", "selcalls:StaticSetMembers", "bytesHaveSchemaLink", "share_links_set_members"},
+	{"pkg/server/share.go", "selcalls:StaticSetMergeSets", "bytesHaveSchemaLink", "share_links_merge_sets"},
+	// every handler type registered anywhere under pkg/ (first argument of blobserver.RegisterHandlerConstructor)
+	{"pkg", "registered:RegisterHandlerConstructor", "", "registered_handler_types"},
 }
 
 type fileInfo struct {
@@ -262,6 +269,49 @@ func (fi *fileInfo) switchCases(name string) ([]string, error) {
 	return out, err
 }
 
+// registered scans every non-test Go file under dir for calls X.fn("literal", ...) / fn("literal", ...)
+func registered(dir, fn string) ([]string, error) {
+	seen := map[string]bool{}
+	err := filepath.Walk(dir, func(path string, info os.FileInfo, err error) error {
+		if err != nil || info.IsDir() || !strings.HasSuffix(path, ".go") || strings.HasSuffix(path, "_test.go") {
+			return err
+		}
+		f, err := parser.ParseFile(token.NewFileSet(), path, nil, 0)
+		if err != nil {
+			return nil // files for other platforms / build tags may not parse alone; skip
+		}
+		ast.Inspect(f, func(n ast.Node) bool {
+			ce, ok := n.(*ast.CallExpr)
+			if !ok || len(ce.Args) == 0 {
+				return true
+			}
+			name := ""
+			switch f := ce.Fun.(type) {
+			case *ast.SelectorExpr:
+				name = f.Sel.Name
+			case *ast.Ident:
+				name = f.Name
+			}
+			if name != fn {
+				return true
+			}
+			if bl, ok := ce.Args[0].(*ast.BasicLit); ok && bl.Kind == token.STRING {
+				if v, err := strconv.Unquote(bl.Value); err == nil {
+					seen[v] = true
+				}
+			}
+			return true
+		})
+		return nil
+	})
+	var out []string
+	for k := range seen {
+		out = append(out, k)
+	}
+	sort.Strings(out)
+	return out, err
+}
+
 func main() {
 	repo := flag.String("repo", "/repo", "repository root")
 	out := flag.String("out", "", "output .v file")
@@ -271,6 +321,24 @@ func main() {
 	b.WriteString("(* GENERATED by /verif/gen/consts from /repo's Go source on every run. Do not edit. *)\n")
 	b.WriteString("From Coq Require Import NArith String List.\nImport ListNotations.\nLocal Open Scope string_scope.\n\n")
 	for _, w := range wants {
+		if strings.HasPrefix(w.kind, "registered:") {
+			names, err := registered(filepath.Join(*repo, w.file), strings.TrimPrefix(w.kind, "registered:"))
+			if err != nil {
+				fmt.Fprintf(os.Stderr, "genconsts: %v\n", err)
+				os.Exit(2)
+			}
+			var qs []string
+			for _, k := range names {
+				cs, err := coqString(k)
+				if err != nil {
+					fmt.Fprintf(os.Stderr, "genconsts: %v\n", err)
+					os.Exit(2)
+				}
+				qs = append(qs, cs)
+			}
+			fmt.Fprintf(&b, "(* %s/... : calls of %s *)\nDefinition %s : list string := [%s].\n", w.file, strings.TrimPrefix(w.kind, "registered:"), w.coqName, strings.Join(qs, "; "))
+			continue
+		}
 		fi, ok := files[w.file]
 		if !ok {
 			var err error
@@ -326,6 +394,22 @@ func main() {
 			ast.Inspect(fd.Body, func(n ast.Node) bool {
 				if se, ok := n.(*ast.SelectorExpr); ok && isIdent(se.X, "strconv") && se.Sel.Name == "ParseInt" {
 					found = true
+				}
+				return true
+			})
+			fmt.Fprintf(&b, "Definition %s : bool := %v.\n", w.coqName, found)
+		case "selcalls:ByteParts", "selcalls:DirectoryEntries", "selcalls:StaticSetMembers", "selcalls:StaticSetMergeSets":
+			fd, ok := fi.funcs[w.goName]
+			if !ok {
+				fail(fmt.Errorf("func not found"))
+			}
+			name := strings.TrimPrefix(w.kind, "selcalls:")
+			found := false
+			ast.Inspect(fd.Body, func(n ast.Node) bool {
+				if ce, ok := n.(*ast.CallExpr); ok {
+					if se, ok := ce.Fun.(*ast.SelectorExpr); ok && se.Sel.Name == name {
+						found = true
+					}
 				}
 				return true
 			})
